@@ -134,6 +134,14 @@ NOTES = {
     "C09_q": "first detected at proof level only (service_is_plain_clientservice); since round 8 the long-outage probe on the REAL "
              "ClientService (3 000 / 20 000 refused attempts) gives the concrete history.",
     "C04_a": "transit replay acceptance: caught by C06 (the channel property C04 builds on).",
+    "C11_z": "the changed code is Boss.got_message's phase regex (C03's anchored code): first missed by C11, caught by C03 at proof "
+             "level; caught with a replay by both since two-digit dilate-N phases go through the real mailbox path (13 / 40 of them).",
+    "C07_z": "first missed (never more than five connections at once); caught since the crowd corpus (20 / 40 pending inbound negotiations).",
+    "C19_zz": "first missed; caught since completion queries fall between a nameplate-list request and its response.",
+    "C05_z": "first detected at proof level only; caught with a replay since the sender's DECLARED archive size is varied (10 MB boundary, "
+             "50 MB, 2^31, 2^40) and the user has files of their own next to the destination (<dest>.zip, .part, ...).",
+    "C12_zz": "first detected at proof level only; caught with a replay since transports that hand over already-read bytes while paused "
+              "and deliver the next ones from inside resumeProducing() (eager transports).",
     "C09_z": "first missed (sessions never had more than ~70 peer phases before a replay); caught since the scripted long sessions "
              "(140 / 300 / ... peer phases, then a reconnect with a full replay, then more traffic).  The same bounded-memory idea was "
              "found independently by the authors of C02_z and C14_z.",
